@@ -82,17 +82,52 @@ type Eb<'a> = extra::Err<Cheap>;
 type SP<'a> = Boxed<'a, 'a, &'a str, (&'a str, &'a str, Option<&'a str>), Ex<'a>>;
 type BPb<'a> = Boxed<'a, 'a, &'a [u8], (&'a [u8], &'a [u8], Option<&'a [u8]>), Eb<'a>>;
 
+thread_local! {
+    /// which formulation `s_unit` / `s_slice` / `b_unit` / `b_slice` build (0 = the C14 one; see `VARIANTS`)
+    static VARIANT: std::cell::Cell<usize> = const { std::cell::Cell::new(0) };
+}
+/// C04: the same text parser in formulations that elide its output (it runs in check mode inside them) and one
+/// that anchors it to the end of the input (so that `check()`'s acceptance depends on how much it consumed)
+pub const VARIANTS: [&str; 7] = ["map_with(slice)", "to_slice()", "ignored()", "ignore_then(empty())", "empty().then_ignore(p)", "to(())", "then(end()) [must match the whole input]"];
+
+macro_rules! variants {
+    ($p:expr, $v:expr, $I:ty, $E:ty) => {{
+        let p = $p;
+        let rest = || any::<$I, $E>().repeated().to_slice();
+        match $v {
+            1 => p.to_slice().then(rest()).map(|(m, r)| (m, r, None)).boxed(),
+            2 => p.ignored().map_with(|_, e| e.slice()).then(rest()).map(|(m, r)| (m, r, None)).boxed(),
+            3 => p.ignore_then(empty()).map_with(|_, e| e.slice()).then(rest()).map(|(m, r)| (m, r, None)).boxed(),
+            4 => empty().then_ignore(p).map_with(|_, e| e.slice()).then(rest()).map(|(m, r)| (m, r, None)).boxed(),
+            5 => p.to(()).map_with(|_, e| e.slice()).then(rest()).map(|(m, r)| (m, r, None)).boxed(),
+            _ => p.map_with(|_, e| e.slice()).then(end().to_slice()).map(|(m, r)| (m, r, None)).boxed(),
+        }
+    }};
+}
+
 fn s_unit<'a, O: 'a>(p: impl Parser<'a, &'a str, O, Ex<'a>> + Clone + 'a) -> SP<'a> {
-    p.to_slice().then(any().repeated().to_slice()).map(|(m, r)| (m, r, None)).boxed()
+    match VARIANT.with(|v| v.get()) {
+        0 => p.to_slice().then(any().repeated().to_slice()).map(|(m, r)| (m, r, None)).boxed(),
+        v => variants!(p, v, &'a str, Ex<'a>),
+    }
 }
 fn s_slice<'a>(p: impl Parser<'a, &'a str, &'a str, Ex<'a>> + Clone + 'a) -> SP<'a> {
-    p.map_with(|o, e| (o, e.slice())).then(any().repeated().to_slice()).map(|((o, m), r)| (m, r, Some(o))).boxed()
+    match VARIANT.with(|v| v.get()) {
+        0 => p.map_with(|o, e| (o, e.slice())).then(any().repeated().to_slice()).map(|((o, m), r)| (m, r, Some(o))).boxed(),
+        v => variants!(p, v, &'a str, Ex<'a>),
+    }
 }
 fn b_unit<'a, O: 'a>(p: impl Parser<'a, &'a [u8], O, Eb<'a>> + Clone + 'a) -> BPb<'a> {
-    p.to_slice().then(any().repeated().to_slice()).map(|(m, r)| (m, r, None)).boxed()
+    match VARIANT.with(|v| v.get()) {
+        0 => p.to_slice().then(any().repeated().to_slice()).map(|(m, r)| (m, r, None)).boxed(),
+        v => variants!(p, v, &'a [u8], Eb<'a>),
+    }
 }
 fn b_slice<'a>(p: impl Parser<'a, &'a [u8], &'a [u8], Eb<'a>> + Clone + 'a) -> BPb<'a> {
-    p.map_with(|o, e| (o, e.slice())).then(any().repeated().to_slice()).map(|((o, m), r)| (m, r, Some(o))).boxed()
+    match VARIANT.with(|v| v.get()) {
+        0 => p.map_with(|o, e| (o, e.slice())).then(any().repeated().to_slice()).map(|((o, m), r)| (m, r, Some(o))).boxed(),
+        v => variants!(p, v, &'a [u8], Eb<'a>),
+    }
 }
 
 type RefFn = Box<dyn Fn(&[char]) -> Option<usize>>;
@@ -227,7 +262,7 @@ struct Re {
     oracle: regex::Regex,
 }
 
-fn check_string(cs: &[char], cfgs: &Cfgs<'static>, res: &[Re], r: &mut UnitResult, unit: &str, distinct: &mut HashSet<u64>) {
+fn check_string(cs: &[char], cfgs: &Cfgs<'static>, res: &[Re], r: &mut UnitResult, unit: &str, distinct: &mut HashSet<u64>, variant: usize) {
     use std::hash::{Hash, Hasher};
     let s: String = cs.iter().collect();
     // the parsers borrow the input for 'static (they are built once per worker); the buffers are leaked
@@ -235,7 +270,12 @@ fn check_string(cs: &[char], cfgs: &Cfgs<'static>, res: &[Re], r: &mut UnitResul
     let leaked: &'static str = Box::leak(s.clone().into_boxed_str());
     let blen = |n: Option<usize>| n.map(|n| cs[..n].iter().map(|c| c.len_utf8()).sum::<usize>());
     let ascii = s.is_ascii();
+    let total_bytes = s.len();
     let mut note = |r: &mut UnitResult, name: &str, kind: &str, got: Result<Option<usize>, String>, want: Option<usize>| {
+        // the anchored formulation accepts iff the parser matches the whole input
+        let want = if variant == VARIANTS.len() - 1 { want.filter(|n| *n == total_bytes) } else { want };
+        let kind_s;
+        let kind = if variant == 0 { kind } else { kind_s = format!("{kind} as {}", VARIANTS[variant]); kind_s.as_str() };
         r.cases += 1;
         r.validated += 1;
         r.states += 1;
@@ -332,7 +372,7 @@ pub fn run_unit(u: &TextUnit, cx: &ShardCtx) -> UnitResult {
                 (cx.progress)(idx);
             }
             let cs = nth_string(&alpha, idx);
-            check_string(&cs, &cfgs, &res, &mut r, &u.name, &mut distinct);
+            check_string(&cs, &cfgs, &res, &mut r, &u.name, &mut distinct, 0);
             n += 1;
         }
         idx += cx.nshards;
@@ -541,6 +581,49 @@ pub fn run_graphemes_unit(u: &TextUnit, cx: &ShardCtx) -> UnitResult {
     r
 }
 
+// ---- C04: output-eliding formulations of every text parser ----------------------------------------------------------
+
+fn with_variant<T>(v: usize, f: impl FnOnce() -> T) -> T {
+    VARIANT.with(|c| c.set(v));
+    let r = f();
+    VARIANT.with(|c| c.set(0));
+    r
+}
+
+/// every text parser configuration and regex pattern, in each formulation of `VARIANTS` (the parser runs in check mode
+/// inside ignored / to_slice / ignore_then / then_ignore / to; the anchored one makes check()'s acceptance depend on the
+/// extent consumed in check mode), on every string: the matched prefix is the documented one in every formulation
+pub fn run_elision(unit: &str, len: usize, cx: &ShardCtx) -> UnitResult {
+    let alpha: Vec<char> = ALPHABET.chars().collect();
+    let total = count_strings(alpha.len(), len);
+    let sets: Vec<(usize, Cfgs<'static>, Vec<Re>)> = (1..VARIANTS.len()).map(|v| with_variant(v, || (v, configs(), regexes()))).collect();
+    let mut r = UnitResult { name: unit.to_string(), exhaustive: true, ..Default::default() };
+    let mut distinct = HashSet::new();
+    let mut idx = cx.shard;
+    let mut n = 0u64;
+    while idx < total {
+        if !cx.skip.contains(&idx) {
+            if n % 64 == 0 {
+                (cx.progress)(idx);
+            }
+            let cs = nth_string(&alpha, idx);
+            for (v, cfgs, res) in &sets {
+                check_string(&cs, cfgs, res, &mut r, unit, &mut distinct, *v);
+            }
+            n += 1;
+        }
+        idx += cx.nshards;
+    }
+    r.counters.insert("strings".into(), n);
+    r.distinct_outcomes = distinct.len() as u64;
+    r.samples.truncate(3);
+    r.desc = format!(
+        "text parsers and regex() in output-eliding formulations: all {} strings of length <= {} over {:?} x every text parser configuration (&str, &[u8]) and regex pattern x {} formulations {:?}: the same prefix is matched (and check() accepts the same inputs) as in the value-building formulation",
+        total, len, ALPHABET, VARIANTS.len() - 1, &VARIANTS[1..]
+    );
+    r
+}
+
 // ---- totality on arbitrary Unicode / arbitrary bytes (C20) ---------------------------------------------------
 
 pub const T_CHARS: [char; 6] = ['a', '0', 'é', '\u{301}', '\u{1D11E}', ' '];
@@ -671,7 +754,10 @@ pub fn replay(v: &Value) -> Result<Option<String>, String> {
     let res = regexes();
     let mut r = UnitResult::default();
     let mut d = HashSet::new();
-    check_string(&input, &cfgs, &res, &mut r, "replay", &mut d);
+    let kind = v["kind"].as_str().unwrap_or("");
+    let variant = VARIANTS.iter().position(|n| kind.ends_with(&format!(" as {n}"))).unwrap_or(0);
+    let (cfgs, res) = if variant == 0 { (cfgs, res) } else { with_variant(variant, || (configs(), regexes())) };
+    check_string(&input, &cfgs, &res, &mut r, "replay", &mut d, variant);
     let want = (v["parser"].as_str().unwrap_or(""), v["kind"].as_str().unwrap_or(""));
     Ok(r.mismatches.iter().find(|m| m["parser"] == want.0 && m["kind"] == want.1).or(r.mismatches.first()).map(|m| m["detail"].as_str().unwrap_or("").to_string()))
 }
